@@ -112,6 +112,29 @@ P = {
          "4/C13"),
 }
 
+# decided in addition since seed rounds 3 and 4 (appended to the level text)
+ADD34 = {
+ "C01": "the bound of every draw from a derivation stream is the published one (math/big interpreter: the DTLS serial is drawn below 2^130-1; the seeded port is min + one draw below max-min); absent transport parameters stay absent in every wrapping transport's ParseParams; the subnet base is net.ParseCIDR's masked network.",
+ "C02": "the sweep examines every record and selects exactly by the expiry condition (shared with C08.3); obfs4 reports a match only after the library handshake returned nil in this call; the classification buffer is a local created by the handler call.",
+ "C03": "the handler and the helpers it calls never park on a channel, select or wait group; the GeoIP wrappers return an error only when the database reader returned one.",
+ "C04": "markActive sets the record to used whatever else holds (only the two not-found outcomes may stop it); the prefix client writes and flushes prefix and tag before WrapConn returns; the unidentified connection's deadline is set exactly once.",
+ "C05": "nothing reachable from Proxy / halfPipe re-acquires or leaks a mutex; the tags Proxy passes make halfPipe attribute the client->covert pipe to 'up' and the other to 'down'.",
+ "C06": "success only if the resolution produced an address (empty-host covert, fixed in ea4cb18); domain patterns are compiled from the configured text unchanged and matched against the unchanged host; a delivery reaches the connecting transports only after its covert was checked and replaced; C06.2/C06.3 are decided through helpers and across a predicate/action split of ingestRegistration.",
+ "C07": "a successful reload replaces the phantom selector as a whole and station code never edits the generations of a live selector; C07.1 / C07.2 / C07.6 are decided through helpers and across a predicate/action split of ingestRegistration (phase-split queries).",
+ "C08": "deletes from the timeout map obey the key discipline; the registration time of a timeout record is written only when the record is created.",
+ "C09": "polling receives need a ctx.Done() case; removeRegistration is reached from the one sweeper only (or tolerates a record that is already gone); the share request is always started as its own goroutine.",
+ "C10": "registerForDetector is invoked only by register(), on the tracked registration; the announced fields (phantom, port, protocol, registrant address) are written only during construction; the expiry clock of a record is never restarted.",
+ "C11": "the DNS registrar's receive loop never parks on a channel, select or wait group; a length test may be established by every caller of an unexported helper instead of the helper itself.",
+ "C12": "every exclusion entry is compared with the phantom (a reachability game from the top of the loop body); the cumulative weights are index-aligned with the subnet list they index.",
+ "C14": "atomic updates of fields of an input and iteration over a map count as impurity; a parsed subnet carries the port flag of its own configured group.",
+ "C15": "a receive buffer handed to a per-message goroutine is allocated per message; UnmarshalAnypbTo decodes with replacing (non-merging) options.",
+ "C16": "the receive queue has one producer (the receive loop's goroutine) with a blocking hand-over; verifyCert checks the presented certificate against the expected certificate's key and its result gates success; the credentials come from hkdf.New (extract, then expand) over the secret.",
+ "C17": "the generated protobuf getters propagate taint, library structs are tracked per allocation site, the client's DTLS source endpoints are sources; a finding is identified by its log statement, not by the enclosing function.",
+ "C18": "every answer of PhantomIsLive is a hit in one of the two caches or a probe made in this call.",
+ "C19": "the optional GeoIP section is dereferenced only under a nil test on the reload path; every failed step of the subnet loaders is reported as an error (no fallback that looks like a successful load).",
+ "C20": "a failed write / rename is reported on every path (return values resolved along the path); SetClientConf installs the new configuration by replacing the pointer and never writes into the message kept for the roll-back.",
+}
+
 ALL = ["C%02d" % i for i in range(1, 21)]
 
 def main():
@@ -126,7 +149,7 @@ def main():
                 "evidence_file": "/verif/evidence/%s.json" % pid,
                 "replay_cmd_template": "cat {path}",
                 "engine": "cjverif",
-                "level_claimed": {"category": "other", "text": ent[2], "design_ref": "DESIGN.md section " + ent[3]},
+                "level_claimed": {"category": "other", "text": ent[2] + (" Further decided (seed rounds 3-4, DESIGN 10.5): " + ADD34[pid] if pid in ADD34 else ""), "design_ref": "DESIGN.md section " + ent[3] + " and 10.2"},
                 "level_note": NOTE,
                 "technique": "static analysis: " + ent[1],
             })
@@ -146,11 +169,11 @@ def main():
         "engines": [{
             "name": "cjverif", "path": "/verif/cmd/cjverif",
             "serves_properties": [c["property_id"] for c in checks],
-            "kind_free_text": "repository-specific static analyser over go/packages + go/ssa (guard dominance/reachability, locksets, interprocedural taint, error classes, draw sequences, bounds, predicate tables, constant tables, cross-language rule extraction); engine fixtures run before every check; overlay-based mutant corpus, rename negative controls and seeded-change replay keep it honest",
+            "kind_free_text": "repository-specific static analyser over go/packages + go/ssa (guard dominance/reachability, locksets, interprocedural taint, error classes, draw sequences, bounds, predicate tables, constant tables, cross-language rule extraction); engine fixtures run before every check; short-circuit threading, predicate summaries and phase-split queries see through condition forms and helpers; overlay-based mutant corpus, ~520 rename controls, 48 behaviour-preserving refactoring controls and the replay of 160 independently seeded changes keep it honest",
         }],
         "checks": checks,
         "not_applicable": na,
-        "notes": "All checks: exit 0 = every obligation discharged (or violated only by entries of known_findings.json, printed as KNOWN-FINDING); exit 1 + VIOLATION line otherwise; exit 2 = no verdict (load/type error, fixture self-check failed). Thorough tier adds a second analysis with -tags debug, the property's mutant corpus incl. rename negative controls, and the replay of the kept seeded changes (both self-tests informational). Fix commits in /repo: see DESIGN.md 10.3 and known_findings.json.",
+        "notes": "All checks: exit 0 = every obligation discharged (or violated only by entries of known_findings.json, printed as KNOWN-FINDING); exit 1 + VIOLATION line otherwise; exit 2 = no verdict (load/type error, fixture self-check failed). Thorough tier adds a second analysis with -tags debug, the property's mutant corpus incl. rename negative controls, the replay of the kept seeded changes and of the behaviour-preserving refactoring controls (all self-tests informational). Fix commits in /repo: see DESIGN.md 10.3 and known_findings.json.",
     }
     with open(os.path.join(HERE, "MANIFEST.json"), "w") as f:
         json.dump(m, f, indent=1)
